@@ -20,6 +20,7 @@ Four parts, all exhaustive within the bound (mc.models.glob is the oracle, a bac
 Every pattern list is installed both with FilesParagraph.create() and by parsing a document (strict).
 """
 import io
+import warnings
 import itertools
 import logging
 
@@ -244,6 +245,17 @@ def units(tier, seed):
     for i in range(len(pool)):
         out.append(dict(base, n=2, part="doc", pool=pool, k=2, fixed=[i], masks=[0, 2], routes=["parse:" + k for k in DOC_KINDS],
                         kinds=True))
+    # ... with other runs of empty and white-space-only lines between the paragraphs
+    for i in range(len(pool)):
+        out.append(dict(base, n=2, part="doc", pool=pool, k=2, fixed=[i], masks=[0, 2, 7], routes=["parse:" + k for k in SEP_KINDS],
+                        kinds=True))
+    # ... and as bytes in which one line per Files paragraph is not UTF-8
+    e = "\xe9"
+    mpool = [["*"], [e + "*"], ["?"], ["*" + e, a], ["caf" + e + "/*"]]
+    mna = [a, e, "/", "\n"]
+    for i in range(len(mpool)):
+        out.append(dict(base, na=mna, n=2, part="doc", pool=mpool, k=2, fixed=[i], masks=[0, 2],
+                        routes=["parse:" + k for k in MIXED_KINDS], kinds=True))
     return out
 
 
@@ -757,6 +769,14 @@ def doc_layout(file_lists, mask):
 DOC_KINDS = ["lines-nonl", "tuple-lines", "generator", "generator-nonl", "StringIO", "textfile", "str", "bytes", "bytes-lines",
              "BytesIO", "bytes-lines-other-encoding", "BytesIO-other-encoding"]
 OTHER_ENCODINGS = ["latin-1", "iso-8859-5", "euc-jp"]
+# what stands between two paragraphs instead of one empty line (white-space-only lines separate as well)
+SEPARATORS = {"two": "\n\n", "blank": " \n", "empty-blanks-empty": "\n  \n\n", "tab-empty": "\t\n\n",
+              "empty-empty-blank": "\n\n \n", "three-blanks": " \n \n \n"}
+SEP_KINDS = ["sep=%s%s" % (k, f) for k in SEPARATORS for f in ("", "/str")]
+# a line in a legacy 8-bit encoding ahead of the Files field of the same paragraph, the rest UTF-8 (each line is decoded
+# on its own; lib/debian/tests/test_deb822.py has such documents)
+MIXED_KINDS = ["mixed-bytes-lines", "mixed-BytesIO"]
+MIXED_LINE = "Comment: Sim\xf3n Garc\xeda\n".encode("latin-1")
 
 
 def other_encoding(text):
@@ -804,6 +824,17 @@ def parse_doc(C, text, kind):
     if kind == "BytesIO-other-encoding":
         enc = other_encoding(text)
         return C.Copyright(io.BytesIO(text.encode(enc)), enc, True)
+    if kind.startswith("sep="):
+        return C.Copyright(text if kind.endswith("/str") else text.splitlines(True), strict=True)
+    if kind in MIXED_KINDS:
+        lines = []
+        for line in text.encode("utf-8").splitlines(True):
+            if line.startswith(b"Files:"):
+                lines.append(MIXED_LINE)
+            lines.append(line)
+        with warnings.catch_warnings():
+            warnings.simplefilter("ignore")
+            return C.Copyright(lines if kind == "mixed-bytes-lines" else io.BytesIO(b"".join(lines)), strict=True)
     raise AssertionError(kind)
 
 
@@ -818,8 +849,10 @@ def build_doc(layout, route):
     C = _copyright()
     try:
         if route.startswith("parse"):
-            text = HEADER + "".join("\n" + (files_text(p[1]) if p[0] == "F" else LIC_TEXT) for p in layout)
-            doc = parse_doc(C, text, route.partition(":")[2])
+            kind = route.partition(":")[2]
+            sep = SEPARATORS[kind[4:].partition("/")[0]] if kind.startswith("sep=") else "\n"
+            text = HEADER + "".join(sep + (files_text(p[1]) if p[0] == "F" else LIC_TEXT) for p in layout)
+            doc = parse_doc(C, text, kind)
         else:
             doc = C.Copyright()
             for p in layout:
